@@ -207,11 +207,13 @@ def descs(ctx: Ctx) -> list[dict]:
     for backend in env.BACKENDS:
         for queue, bound in (("single", 2), ("dup", 1), ("blocking", 1), ("recovery", 1), ("kill", 1),
                              ("late-finish", 1), ("two", 1)):
-            if ctx.thorough and queue != "single":
-                bound += 1  # 'single' already runs with 2 deviations in quick (a third costs ~3.4 M schedules)
+            if ctx.thorough and queue not in ("single", "two"):
+                # 'single' already runs with 2 deviations in quick (a third costs ~3.4 M schedules); 'two' (three
+                # invocations, 370 points) would cost ~0.5 M more
+                bound += 1
             out.append(dict(backend=backend, queue=queue, n=2, k=2 if queue == "two" else 1, bound=bound))
         for queue in LIFE_KINDS:
-            out.append(dict(backend=backend, queue=queue, n=2, k=1, bound=2 if ctx.thorough else 1))
+            out.append(dict(backend=backend, queue=queue, n=2, k=1, bound=2 if ctx.thorough and queue in ("retry", "fail") else 1))
     if getattr(ctx, "only", None):
         out = [d for d in out if ctx.only in e1.desc_key(d)]
     return out
